@@ -3171,6 +3171,78 @@ fn runtime_ingress_kind_edge_id(event_id: &NodeId, kind_node_id: &NodeId) -> cra
     crate::ident::EdgeId(hasher.finalize().into())
 }
 
+/// Verification-only seams (compiled only with `--cfg echo_verif`).
+#[cfg(echo_verif)]
+impl Engine {
+    /// Enqueues a raw candidate (arbitrary scope hash, rule id and footprint)
+    /// into the scheduler's pending queue for `tx`.
+    pub fn verif_enqueue_raw(
+        &mut self,
+        tx: TxId,
+        scope_hash: Hash,
+        rule_id: Hash,
+        compact_rule: u32,
+        scope: NodeKey,
+        footprint: crate::footprint::Footprint,
+    ) {
+        self.scheduler.enqueue(
+            tx,
+            PendingRewrite {
+                rule_id,
+                compact_rule: CompactRuleId(compact_rule),
+                scope_hash,
+                scope,
+                footprint,
+                phase: RewritePhase::Matched,
+                origin: OpOrigin {
+                    intent_id: 0,
+                    rule_id: compact_rule,
+                    match_ix: 0,
+                    op_ix: 0,
+                },
+            },
+        );
+    }
+
+    /// Drains the pending queue of `tx` in canonical order and runs the real
+    /// reserve phase over it, returning the receipt (entries are in drain
+    /// order). Nothing is executed; the transaction is finalized afterwards.
+    ///
+    /// # Errors
+    ///
+    /// Propagates the reserve phase's internal-corruption errors.
+    pub fn verif_drain_reserve(&mut self, tx: TxId) -> Result<TickReceipt, EngineError> {
+        let drained = self.scheduler.drain_for_tx(tx);
+        let outcome = self.reserve_for_receipt(tx, drained);
+        self.live_txs.remove(&tx.value());
+        self.scheduler.finalize_tx(tx);
+        outcome.map(|o| o.receipt)
+    }
+
+    /// Debug rendering of every private field a runtime commit may touch
+    /// (engine scratch state that no public accessor exposes).
+    #[must_use]
+    pub fn verif_fingerprint(&self) -> String {
+        format!(
+            "state={:#?}\ncurrent_root={:?}\ninitial_state={:#?}\nlast_snapshot={:?}\n\
+             tick_history={:?}\ntx_counter={}\nlive_txs={:?}\nscheduler={:?}\nbus={:?}\n\
+             last_materialization={:?}\nlast_materialization_errors={:?}\nintent_log={:?}",
+            self.state,
+            self.current_root,
+            self.initial_state,
+            self.last_snapshot,
+            self.tick_history,
+            self.tx_counter,
+            self.live_txs,
+            self.scheduler,
+            self.bus,
+            self.last_materialization,
+            self.last_materialization_errors,
+            self.intent_log,
+        )
+    }
+}
+
 #[cfg(test)]
 mod tests {
     use super::*;
